@@ -937,6 +937,7 @@ def _eval_with(g, o, sw, lab):
             if eff == "perds":
                 for d in datasets:
                     d.enable_effects()
+    _eval_with.all_records = list(cap.records)
     return out, list(g.log[n0:]), [r for r in cap.records if r[2].startswith("Labrea: Evaluating")], \
         (len(misses) if Logged is not None else None)
 
@@ -1081,8 +1082,22 @@ def judge_c16_group(cases, lab):
                 continue
             if eff != "on" and [e for e in a_log if e[0] == "effect"]:
                 res.bad("effects-off" + tag, "effects ran although disabled: %s" % [(e[1], e[3]) for e in a_log if e[0] == "effect"][:4])
-            if log != "on" and a_rec:
-                res.bad("logging-off" + tag, "%d log records emitted although logging is disabled" % len(a_rec))
+            a_all = _eval_with.all_records
+            if log != "on" and (a_rec or a_all):
+                res.bad("logging-off" + tag, "%d log records emitted although logging is disabled: %s" % (len(a_all), a_all[:3]))
+            le_nodes = {i for i, nd in enumerate(nodes, start=1) if nd["k"] == "ds" and "le" in nd.get("effs", [])}
+            if le_nodes:
+                le_recs = [r for r in a_all if r[2].startswith("LE")]
+                if eff != "on" and le_recs:
+                    res.bad("effects-off" + tag, "LogEffect records %s although effects are disabled" % le_recs[:3])
+                if eff == "on" and log == "on":
+                    computed = {e[3] for e in a_log if e[0] == "callback"} & le_nodes
+                    logged = {int(r[2][2:]) for r in le_recs}
+                    if computed != logged:
+                        res.bad("log-effect" + tag, "datasets with a LogEffect that were computed: %s; LogEffect records for: %s" % (
+                            sorted(computed), sorted(logged)))
+                    if any(r[0] != pylogging.INFO for r in le_recs):
+                        res.bad("log-effect-level" + tag, "LogEffect records not at the given level: %s" % le_recs[:3])
             if log == "on":
                 info = [r for r in a_rec if r[0] == pylogging.INFO]
                 computed = len([e for e in a_log if e[0] == "callback"])
